@@ -24,6 +24,7 @@ type stepC12 struct {
 	Setter   string `json:"setter"`
 	Index    int    `json:"index"`
 	Probe    int    `json:"probe,omitempty"` // read-only operation run after the call (see api.Probe)
+	Reuse    bool   `json:"reuse_will_object,omitempty"` // SetWill: change the previously attached *Publish and attach the same object again
 	AfterGob string `json:"model_after_gob"`
 	After    string `json:"model_after"`
 }
@@ -205,6 +206,7 @@ func checkC12(c caseC12) (sig, msg string) {
 	}
 	var last model.Packet = model.New(c.Type)
 	last.Normalize()
+	var lastWill *mq.Publish
 	// a fresh packet must already agree with the empty model
 	if d := model.Diff(api.Observe(p), last); d != "" {
 		return "fresh:" + fieldOf(d), fmt.Sprintf("fresh %s differs from the empty model (got vs model): %s", typeName(c.Type), d)
@@ -218,7 +220,18 @@ func checkC12(c caseC12) (sig, msg string) {
 		if err != nil {
 			return "harness", "harness: " + err.Error()
 		}
-		if pan := guard.Call(func() { s.Apply(p, &m, st.Index) }); pan != nil {
+		apply := func() { s.Apply(p, &m, st.Index) }
+		if cp, ok := p.(*mq.Connect); ok && st.Setter == "SetWill" && m.Will != nil {
+			apply = func() {
+				if st.Reuse && lastWill != nil {
+					api.ApplyWill(lastWill, m.Will)
+				} else {
+					lastWill = api.BuildWill(m.Will)
+				}
+				cp.SetWill(lastWill)
+			}
+		}
+		if pan := guard.Call(apply); pan != nil {
 			return "panic:" + st.Setter, fmt.Sprintf("step %d %s panicked: %v\n%s", i, st.Setter, pan.Value, pan.Stack)
 		}
 		if st.Probe > 0 {
@@ -322,7 +335,8 @@ func TestC12(t *testing.T) {
 				if rapid.IntRange(0, 5).Draw(t, "probe") == 0 {
 					probe = rapid.IntRange(1, 4).Draw(t, "probekind")
 				}
-				c.Steps = append(c.Steps, stepC12{Setter: s.Name, Index: idx, Probe: probe, AfterGob: after, After: m.String()})
+				reuse := s.Name == "SetWill" && rapid.IntRange(0, 2).Draw(t, "reusewill") == 0
+				c.Steps = append(c.Steps, stepC12{Setter: s.Name, Index: idx, Probe: probe, Reuse: reuse, AfterGob: after, After: m.String()})
 				calls[s.Name]++
 				if !s.IsList && calls[s.Name] >= 2 && before != after {
 					nt = true // set twice with different values (includes resets to zero)
